@@ -24,6 +24,7 @@ import (
 type Opt struct {
 	Hash int  `json:"h,omitempty"`
 	Ctx  int  `json:"c,omitempty"`
+	CK   int  `json:"ck,omitempty"` // context flavour: 0 random bytes, 1 two-byte UTF-8 runes, 2 three-byte runes, 3 ASCII
 	Zip  bool `json:"z,omitempty"`
 	Form int  `json:"f,omitempty"`
 }
@@ -108,6 +109,24 @@ func (o Opt) ctxBytes(seed uint64) []byte {
 	for i := range b { // keep it printable-agnostic but never empty-looking
 		if b[i] == 0 {
 			b[i] = 1
+		}
+	}
+	// valid multi-byte UTF-8 of exactly Ctx BYTES (a limit counted in
+	// characters instead of bytes only shows on such contexts)
+	switch o.CK {
+	case 1, 2:
+		unit := []string{"", "\u00e9", "\u20ac"}[o.CK]
+		out := make([]byte, 0, o.Ctx)
+		for len(out)+len(unit) <= o.Ctx {
+			out = append(out, unit...)
+		}
+		for len(out) < o.Ctx {
+			out = append(out, 'x')
+		}
+		return out
+	case 3:
+		for i := range b {
+			b[i] = 'a' + b[i]%26
 		}
 	}
 	return b
@@ -293,6 +312,13 @@ func buildEntries(opSeed uint64, o Opt, es []Entry) []triple {
 			hh.Write(t.msg)
 			k := new(big.Int).Mod(leToInt(hh.Sum(nil)), bcL)
 			t.sig = append(append([]byte{}, R...), intToLE32(new(big.Int).Mod(new(big.Int).Mul(k, a), bcL))...)
+		case "pfx":
+			// an honest signature over a proper PREFIX of the message
+			k := []int{32, 64, 96, 128, 160, 192, 224, 256, 1, 111}[e.P%10]
+			t.msg = seededBytes(k+1+e.Q%40, opSeed, lbl("msg"), uint64(i))
+			if o.Hash != 1 {
+				t.sig = stdSign(seed, t.msg[:k], o, signCtx)
+			}
 		case "noRB":
 			// key = the base point itself, S = h, R an unrelated point:
 			// [S]B - [h]A = 0 with EQUAL scalars on both sides - a verifier
@@ -406,6 +432,11 @@ var loworderX25519 = [][]byte{
 	{0x5f, 0x9c, 0x95, 0xbc, 0xa3, 0x50, 0x8c, 0x24, 0xb1, 0xd0, 0xb1, 0x55, 0x9c, 0x83, 0xef, 0x5b, 0x04, 0x44, 0x5c, 0xc4, 0x58, 0x1c, 0x8e, 0x86, 0xd8, 0x22, 0x4e, 0xdd, 0xd0, 0x9f, 0x11, 0x57},
 	{0xec, 0xff, 0xff, 0xff, 0xff, 0xff, 0xff, 0xff, 0xff, 0xff, 0xff, 0xff, 0xff, 0xff, 0xff, 0xff, 0xff, 0xff, 0xff, 0xff, 0xff, 0xff, 0xff, 0xff, 0xff, 0xff, 0xff, 0xff, 0xff, 0xff, 0xff, 0x7f},
 }
+
+// stabilityRing (sequential engines): the last few outcomes, re-examined after
+// every call.
+var stabilityRing []*Outcome
+var stabilityNext int
 
 // reuseOptions (io engine only; a single goroutine): most calls go through one
 // long-lived Options value whose exported fields are rewritten before each call.
@@ -590,21 +621,22 @@ func wrapKey(fn string, b []byte) interface{} {
 
 // Outcome is everything observable about one call.
 type Outcome struct {
-	Panic        string   `json:"panic,omitempty"`
-	Budget       bool     `json:"budget,omitempty"`
-	B            string   `json:"b,omitempty"`  // primary byte result (hex), "nil" for nil
-	B2           string   `json:"b2,omitempty"` // secondary byte result
-	Ok           string   `json:"ok,omitempty"` // "true"/"false" when the call returns a bool
-	Valid        string   `json:"valid,omitempty"`
-	Err          string   `json:"err,omitempty"`
-	Dev          *DevLog  `json:"dev,omitempty"`
-	Fallbacks    [][2]int `json:"fallbacks,omitempty"`
-	Pts          int64    `json:"pts,omitempty"`
-	Intact       bool     `json:"intact"`
-	Fault        bool     `json:"fault,omitempty"`
-	AliasesInput bool     `json:"aliases_input,omitempty"`
-	NilRd        bool     `json:"-"`
-	Fn           string   `json:"-"`
+	Panic            string   `json:"panic,omitempty"`
+	Budget           bool     `json:"budget,omitempty"`
+	B                string   `json:"b,omitempty"`  // primary byte result (hex), "nil" for nil
+	B2               string   `json:"b2,omitempty"` // secondary byte result
+	Ok               string   `json:"ok,omitempty"` // "true"/"false" when the call returns a bool
+	Valid            string   `json:"valid,omitempty"`
+	Err              string   `json:"err,omitempty"`
+	Dev              *DevLog  `json:"dev,omitempty"`
+	Fallbacks        [][2]int `json:"fallbacks,omitempty"`
+	Pts              int64    `json:"pts,omitempty"`
+	Intact           bool     `json:"intact"`
+	Fault            bool     `json:"fault,omitempty"`
+	AliasesInput     bool     `json:"aliases_input,omitempty"`
+	ClobberedEarlier string   `json:"clobbered_earlier,omitempty"`
+	NilRd            bool     `json:"-"`
+	Fn               string   `json:"-"`
 
 	valid []bool
 	err   error
@@ -760,6 +792,32 @@ func execOp(p *Prepared) (out *Outcome) {
 		}
 	}
 	out.snap = out.snapshot()
+	// a caller may append to what it was given: fill the spare capacity behind
+	// each byte result (if results of different calls are windows of one
+	// buffer, this lands in somebody else's result)
+	if !out.AliasesInput {
+		for _, b := range [][]byte{out.b, out.b2} {
+			if cap(b) > len(b) && len(b) > 0 {
+				full := b[:cap(b)]
+				for i := len(b); i < len(full); i++ {
+					full[i] = 0x5a
+				}
+			}
+		}
+	}
+	// what earlier calls returned belongs to their callers: it must still be
+	// what it was (sequential engines; the concurrency engine checks this at
+	// the end of each episode)
+	if stabilityRing != nil {
+		for _, prev := range stabilityRing {
+			if prev != nil && !prev.Stable() {
+				out.ClobberedEarlier = fmt.Sprintf("%s: returned %s, now %s", prev.Fn, prev.snap, prev.snapshot())
+				prev.snap = prev.snapshot()
+			}
+		}
+		stabilityRing[stabilityNext%len(stabilityRing)] = out
+		stabilityNext++
+	}
 	out.B, out.B2 = "", ""
 	if out.b != nil || out.Panic == "" {
 		out.B = hexOrNil(out.b)
